@@ -4,6 +4,10 @@ import json, os
 ROOT = os.path.dirname(os.path.dirname(os.path.abspath(__file__)))
 TRUST = "TLC 1.8 and the CommunityModules Json/IOUtils; the Rust harness (vh) that drives the public API of /repo's crates; rustc/cargo"
 CHECKS = {
+ "C20": ("DESIGN.md section 6 C20",
+         "Cli.tla gives, for every invocation form and every script of the bounded builder (outcome classes success / crash / non-zero exit / zero exit / parse error / missing file; label, output and command spellings with and without upper-case letters), the exit status, the presence of an 'Error:' line and whether the script may run (lint must not); the duck binary built from /repo's tree is run as a subprocess on every case and also compared with the in-process library run of the same script (success and captured output); random longer scripts are validated by TLC.",
+         "small-scope exhaustive on scripts x forms; the REPL is not covered",
+         "TLA+ spec + TLC exhaustive; spec->impl replay (subprocess); impl->spec trace validation"),
  "C17": ("DESIGN.md section 6 C17",
          "Codec.tla transcribes UTF-8, base64 and hex with integer arithmetic and defines the JSON normalisation on trees, so TLC is an independent oracle for the bytes and encoded texts: every text over an alphabet with NUL / control / 1-4-byte characters, boundary integers, 187 JSON documents and 90 property maps are replayed through string_to_bytes / base64_encode / base64_decode / bytes_to_string, hex_encode / hex_decode, json_parse --collection + json_encode --collection and map_to_properties + map_load_properties; random larger inputs are validated by TLC.",
          "small-scope exhaustive on texts, sampled beyond; JSON lexical forms and properties escaping not transcribed (identity oracle only)",
